@@ -272,7 +272,7 @@ def c06(run):
             adv = b["metaepochs"] - a["metaepochs"]
             if should and adv != 1:
                 out.append(V("C06/active-deme-did-not-advance-by-one", f"metaepoch {s['n']}: active deme {did} advanced by {adv} metaepochs"))
-            if not should and (adv != 0 or b["n_evals"] != a["n_evals"] or b["ngens"] != a["ngens"]):
+            if not should and (adv != 0 or b["n_evals"] != a["n_evals"] or b["ngens"] != a["ngens"] or (a.get("hist") is not None and b.get("hist") is not None and repr(a["hist"]) != repr(b["hist"]))):  # repr: NaN-safe
                 what = "inactive" if not a["active"] else "hibernating"
                 sig = "C06/inactive-deme-changed" if not a["active"] else "C18/hibernating-deme-changed"
                 out.append(V(sig, f"metaepoch {s['n']}: {what} deme {did} changed (metaepochs +{adv}, evals {a['n_evals']}->{b['n_evals']})"))
